@@ -1,6 +1,7 @@
 import Vorbis.File.Model
 namespace Vorbis.Props.C10
-open Vorbis Vorbis.File
+open Vorbis Vorbis.File Vorbis.Block
+set_option linter.unusedSimpArgs false
 
 /-- how much the sync layer happens to have buffered (which depends on what the read callback
     returned) influences neither the page found nor where the cursor ends up, for bounded and
@@ -18,5 +19,130 @@ theorem C10_next_page_ignores_buffering (ph : Phys) (off f1 f2 boundary : Int) (
       by_cases h : boundary > 0 ∧ off + boundary ≤ st <;> simp [h]
   | some p =>
       by_cases h : boundary > 0 ∧ p.off ≥ off + boundary <;> simp [h]
+
+theorem shl_add (a b : Int) (k : Nat) : shl (a + b) k = shl a k + shl b k := by
+  unfold shl; exact Int.add_mul a b _
+
+theorem read_ok (d : Dec) (n : Int) (h0 : 0 ≤ n) (h : n ≤ d.pcmout) : (d.read n).1 = { d with ret := d.ret + n } := by
+  unfold Dec.read
+  unfold Dec.pcmout at h
+  by_cases hn : n = 0
+  · subst hn; simp
+  · have : ¬ (d.ret + n > d.cur) := by
+      split at h <;> omega
+    simp [hn, this]
+
+theorem pcmout_read (d : Dec) (n : Int) (h0 : 0 ≤ n) (h : n ≤ d.pcmout) :
+    ({ d with ret := d.ret + n } : Dec).pcmout = d.pcmout - n := by
+  unfold Dec.pcmout at *
+  simp only []
+  split at h
+  · rename_i hc
+    by_cases hn : d.ret + n < d.cur
+    · have : d.ret + n > -1 := by omega
+      simp [this, hn]; omega
+    · have : ¬ (d.ret + n > -1 ∧ d.ret + n < d.cur) := by omega
+      simp [this]; omega
+  · rename_i hc
+    have hn : n = 0 := by omega
+    subst hn
+    simp [hc]
+
+def take (avail len : Int) : Int := if avail > len then len else avail
+
+theorem readTake_spec (s : VF) (d : Dec) (len : Int) (hr : s.ready = INITSET) (hv : s.vd = some d) (hl : 0 ≤ len) :
+    readTake s len = (take d.pcmout len,
+      { s with vd := some { d with ret := d.ret + take d.pcmout len }, pcm_offset := s.pcm_offset + shl (take d.pcmout len) s.hs }) := by
+  have hp : 0 ≤ d.pcmout := by unfold Dec.pcmout; split <;> omega
+  simp only [readTake, readAvail, hr, hv, if_true, Option.map, take]
+  rw [read_ok d _ (by split <;> omega) (by split <;> omega)]
+
+/-- the lengths passed to the read calls do not matter: asking for `a` and then for `b` samples hands out the same stretch of the
+    decoder's buffer — same total count, same final decoder cursor and position — as asking for `a+b` at once -/
+theorem C10_read_split (s : VF) (a b : Int) (ha : 0 ≤ a) (hb : 0 ≤ b) :
+    (readTake (readTake s a).2 b).2 = (readTake s (a + b)).2 ∧
+    (readTake s a).1 + (readTake (readTake s a).2 b).1 = (readTake s (a + b)).1 := by
+  by_cases hr : s.ready = INITSET
+  · cases hv : s.vd with
+    | none =>
+        simp [readTake, readAvail, hr, hv, shl]
+        have h1 : ¬ ((0:Int) > a) := by omega
+        have h2 : ¬ ((0:Int) > b) := by omega
+        have h3 : ¬ ((0:Int) > a + b) := by omega
+        simp [h1, h2, h3]
+    | some d =>
+        have hp : 0 ≤ d.pcmout := by unfold Dec.pcmout; split <;> omega
+        have ht : 0 ≤ take d.pcmout a ∧ take d.pcmout a ≤ d.pcmout := by unfold take; split <;> omega
+        rw [readTake_spec s d a hr hv ha, readTake_spec s d (a + b) hr hv (by omega)]
+        simp only []
+        have e2 := readTake_spec
+          { s with vd := some { d with ret := d.ret + take d.pcmout a }, pcm_offset := s.pcm_offset + shl (take d.pcmout a) s.hs }
+          { d with ret := d.ret + take d.pcmout a } b hr rfl hb
+        rw [e2]
+        rw [pcmout_read d _ ht.1 ht.2]
+        have key : take d.pcmout a + take (d.pcmout - take d.pcmout a) b = take d.pcmout (a + b) := by
+          unfold take; split <;> split <;> split <;> omega
+        constructor
+        · simp only [shl_add, ← key, Int.add_assoc]
+        · exact key
+  · simp [readTake, readAvail, hr, shl]
+    have h1 : ¬ ((0:Int) > a) := by omega
+    have h2 : ¬ ((0:Int) > b) := by omega
+    have h3 : ¬ ((0:Int) > a + b) := by omega
+    simp [h1, h2, h3]
+    cases s.vd <;> simp [Dec.read]
+
+/-- a sequence of read calls with the given maximum lengths: total count and final state -/
+def readSeq (s : VF) : List Int → Int × VF
+  | [] => (0, s)
+  | l :: ls => ((readTake s l).1 + (readSeq (readTake s l).2 ls).1, (readSeq (readTake s l).2 ls).2)
+
+theorem readTake_zero (s : VF) : readTake s 0 = (0, s) := by
+  have key : ∀ (d : Dec), (d.read 0).1 = d := by
+    intro d; cases d; simp [Dec.read]
+  have hn : (if readAvail s > 0 then (0:Int) else readAvail s) = 0 := by
+    have : 0 ≤ readAvail s := by
+      unfold readAvail
+      split
+      · cases s.vd with
+        | none => simp
+        | some d => simp only []; unfold Dec.pcmout; split <;> omega
+      · omega
+    split <;> omega
+  cases s with
+  | mk a1 a2 a3 a4 a5 a6 a7 a8 a9 a10 a11 a12 a13 a14 a15 vd a17 a18 a19 a20 a21 =>
+    simp only [readTake, hn]
+    cases vd with
+    | none => simp [shl]
+    | some d => simp [shl, key]
+
+theorem sum_nonneg (ls : List Int) (h : ∀ l ∈ ls, 0 ≤ l) : 0 ≤ ls.sum := by
+  induction ls with
+  | nil => simp
+  | cons x xs ih =>
+      have h1 := h x (by simp)
+      have h2 := ih (fun y hy => h y (by simp [hy]))
+      simp only [List.sum_cons]; omega
+
+/-- **request lengths are irrelevant**: any sequence of reads with non-negative maximum lengths hands out, in total, exactly what one
+    read of the summed length hands out, and leaves the handle in the same state (within the decoded block: a read never crosses a packet) -/
+theorem C10_read_lengths_irrelevant (ls : List Int) (h : ∀ l ∈ ls, 0 ≤ l) (s : VF) :
+    readSeq s ls = readTake s ls.sum := by
+  induction ls generalizing s with
+  | nil => simp [readSeq, readTake_zero]
+  | cons l ls ih =>
+      have hl : 0 ≤ l := h l (by simp)
+      have hs : 0 ≤ ls.sum := sum_nonneg ls (fun y hy => h y (by simp [hy]))
+      have ih' := ih (by intro y hy; exact h y (by simp [hy])) (readTake s l).2
+      have sp := C10_read_split s l ls.sum hl hs
+      simp only [readSeq, List.sum_cons]
+      rw [ih']
+      exact Prod.ext sp.2 sp.1
+
+/-- non-vacuity: a handle with 6 decoded samples pending; 2+3+4 and 9 at once both hand out all 6 and end in the same state -/
+example : readSeq { ready := INITSET, vd := some { lW := false, W := false, cW := 0, cur := 10, ret := 4, gran := -1, seq := 0, sc := 0, eof := false } } [2, 3, 4] =
+    readTake { ready := INITSET, vd := some { lW := false, W := false, cW := 0, cur := 10, ret := 4, gran := -1, seq := 0, sc := 0, eof := false } } 9 :=
+  C10_read_lengths_irrelevant [2, 3, 4] (by decide) _
+example : (readTake { ready := INITSET, vd := some { lW := false, W := false, cW := 0, cur := 10, ret := 4, gran := -1, seq := 0, sc := 0, eof := false } } 9).1 = 6 := by decide
 
 end Vorbis.Props.C10
